@@ -27,15 +27,6 @@ pub uninterp spec fn pieces_of(s: Seq<char>, c: char) -> Seq<Seq<char>>;
 pub uninterp spec fn str_bytes(s: Seq<char>) -> Seq<u8>;
 pub uninterp spec fn node_id_of(name: ClusterName, addr: Seq<char>) -> Seq<char>;
 
-pub open spec fn spec_ignore(tag: SlotRangeTag, st: Option<MigrationState>) -> bool {
-    match tag {
-        SlotRangeTag::Migrating(_) => st != Some(MigrationState::PreCheck),
-        SlotRangeTag::Importing(_) => st == Some(MigrationState::PreCheck),
-        SlotRangeTag::None => false,
-    }
-}
-pub open spec fn state_of(m: Map<RangeList, MigrationState>, rl: RangeList) -> Option<MigrationState> { if m.contains_key(rl) { Some(m[rl]) } else { None } }
-pub open spec fn advertised(sr: SlotRange, states: Map<RangeList, MigrationState>) -> bool { !spec_ignore(sr.tag, state_of(states, sr.range_list)) }
 
 // [host, port, node id] of the node the entries are listed under
 pub open spec fn ip_port_v(name: ClusterName, addr: Seq<char>) -> V {
@@ -100,25 +91,27 @@ pub proof fn lemma_render_ranges_step(name: ClusterName, addr: Seq<char>, rs: Se
     ensures render_ranges(name, addr, rs, n) == render_ranges(name, addr, rs, (n - 1) as nat).push(entry_v(name, addr, rs[n - 1]))
 {}
 
-// ---- local / remote cluster (the map handed to the helper) ----
-pub trait CmdTaskSender {}
-#[verifier::external_body] #[verifier::reject_recursive_types(S)] pub struct SenderMap<S: CmdTaskSender> { x: core::marker::PhantomData<S> }   // out of reach, never touched here
-#[verifier::external_body] pub struct ClusterConfig { x: u8 }
-#[verifier::external_body] pub struct SlotMap { x: u8 }
-// all slot ranges of the first n nodes in the order ks
-pub open spec fn flat(ks: Seq<String>, m: Map<String, Vec<SlotRange>>, n: nat) -> Seq<SlotRange>
+
+// ---- agreement: CLUSTER SLOTS lists under a node exactly one entry per range of adv_ranges (the definition shared with CLUSTER NODES) ----
+pub open spec fn entries_of(name: ClusterName, addr: Seq<char>, rs: Seq<Range>) -> Seq<V> { Seq::new(rs.len(), |i: int| entry_v(name, addr, rs[i])) }
+pub proof fn lemma_render_ranges_is_map(name: ClusterName, addr: Seq<char>, rs: Seq<Range>, n: nat)
+    requires n <= rs.len()
+    ensures render_ranges(name, addr, rs, n) == entries_of(name, addr, rs.subrange(0, n as int))
     decreases n
 {
-    if n == 0 || n > ks.len() { Seq::<SlotRange>::empty() } else { flat(ks, m, (n - 1) as nat) + m[ks[n - 1]]@ }
+    if n > 0 { lemma_render_ranges_is_map(name, addr, rs, (n - 1) as nat); assert(rs.subrange(0, n as int) =~= rs.subrange(0, n - 1).push(rs[n - 1])); }
+    assert(render_ranges(name, addr, rs, n) =~= entries_of(name, addr, rs.subrange(0, n as int)));
 }
-pub open spec fn is_order_of(ks: Seq<String>, m: Map<String, Vec<SlotRange>>) -> bool { ks.no_duplicates() && forall|k: String| m.contains_key(k) <==> ks.contains(k) }
-pub proof fn lemma_single_key(ks: Seq<String>, k: String)
-    requires ks.no_duplicates(), forall|x: String| x == k <==> ks.contains(x)
-    ensures ks == seq![k]
+pub proof fn c14_slots_lists_adv_ranges(name: ClusterName, addr: Seq<char>, srs: Seq<SlotRange>, states: Map<RangeList, MigrationState>, n: nat)
+    requires n <= srs.len()
+    ensures render_node(name, addr, srs, states, n) == entries_of(name, addr, adv_ranges(srs, states, n))
+    decreases n
 {
-    assert(ks.contains(k));
-    let i = choose|i: int| 0 <= i < ks.len() && ks[i] == k;
-    assert forall|j: int| 0 <= j < ks.len() implies ks[j] == k by { assert(ks.contains(ks[j])); }
-    if ks.len() > 1 { assert(ks[0] == ks[1]); }
-    assert(ks =~= seq![k]);
+    if n > 0 {
+        c14_slots_lists_adv_ranges(name, addr, srs, states, (n - 1) as nat);
+        let rs = srs[n - 1].range_list.0@;
+        lemma_render_ranges_is_map(name, addr, rs, rs.len());
+        assert(rs.subrange(0, rs.len() as int) =~= rs);
+    }
+    assert(render_node(name, addr, srs, states, n) =~= entries_of(name, addr, adv_ranges(srs, states, n)));
 }
